@@ -144,7 +144,9 @@ LINE = st.sampled_from(['a', 'b', 'c', '', 'x y', ' a', 'a ', 'é\U0001f600', '#
                         # lines that collide when lines are glued with a separator instead of compared one by one: backslash-n (two characters), comma, ...
                         'a\\nb', 'b\\nc', 'a\\n', '\\nb', '\\n', 'a,b', 'b,c', 'a\x00b', 'a\\', 'nb',
                         # lines that differ only by a lone surrogate / a combining mark / case
-                        'a\ud83d', '\ud83d', '\udc00a', 'smile \ud83d', 'smile ', 'e\u0301', '\u00e9', 'A', 'ａ'])
+                        'a\ud83d', '\ud83d', '\udc00a', 'smile \ud83d', 'smile ', 'e\u0301', '\u00e9', 'A', 'ａ',
+                        # words a script-level table keyed by line text might use for its own bookkeeping
+                        'count', 'length', 'lines', 'type', 'null', 'true', '0', '1', 'Identical', 'ix'])
 
 
 @st.composite
